@@ -433,6 +433,12 @@ class InProtocolBase(ProtocolMixin):
         if self.validator is self.SOFT_VALIDATION and not (
                                         cls.validate_string(cls, value)):
             raise ValidationError(value)
+
+        # a value that's not one of the members can't be converted anyway
+        if not isinstance(value, six.string_types) or \
+                                                not value in cls.__values__:
+            raise ValidationError(value)
+
         return getattr(cls, value)
 
     def model_base_from_bytes(self, cls, value):
